@@ -96,6 +96,30 @@ impl Arc {
         })
     }
 
+    /// Validate a `try_unwrap` call. As in `std`, where it is a relaxed
+    /// compare-and-swap followed by an acquire fence on success, only a
+    /// successful attempt synchronizes with the handles released earlier.
+    pub(crate) fn try_unwrap(&self, location: Location) -> bool {
+        self.branch(Action::RefDec, location);
+
+        rt::execution(|execution| {
+            let state = self.state.get_mut(&mut execution.objects);
+
+            assert!(state.ref_cnt >= 1, "Arc is released");
+
+            let is_only_ref = state.ref_cnt == 1;
+
+            if is_only_ref {
+                // Synchronize the threads
+                state.synchronize.sync_load(&mut execution.threads, Acquire);
+            }
+
+            trace!(state = ?self.state, ?is_only_ref, %location, "Arc::try_unwrap");
+
+            is_only_ref
+        })
+    }
+
     /// Returns true if the memory should be dropped.
     pub(crate) fn ref_dec(&self, location: Location) -> bool {
         self.branch(Action::RefDec, location);
